@@ -918,6 +918,18 @@ func checkGetUnknownFields(c GetUFCase, cv *cov) (v *evid.Violation) {
 				v = evid.Failf("step %d: the tree from GetUnknownFields(%s) does not write back to the bytes stored in the struct (first difference at %d)", step, sh.name, firstDiff(out, data))
 				return
 			}
+			// the tree is a value of its own: the struct's bytes are overwritten, the tree must still write the original
+			saved := append([]byte(nil), data...)
+			for i := range data {
+				data[i] = 0xEE
+			}
+			out2 := make([]byte, l)
+			_, err = uf.WriteUnknownFields(out2, got)
+			copy(data, saved)
+			if err != nil || !bytes.Equal(out2, saved) {
+				v = evid.Failf("step %d: the tree from GetUnknownFields(%s) changed when the bytes stored in the struct were overwritten afterwards (first difference at %d)", step, sh.name, firstDiff(out2, saved))
+				return
+			}
 		}
 	}
 	if p, st := evid.Safe(body); p != nil {
